@@ -339,6 +339,9 @@ def hostilify(rng, schema, depth=0):
             out[key] = [hostilify(rng, sub, depth + 1) for sub in val]
         else:
             out[key] = val
+    if rng.random() < (0.12 if depth == 0 else 0.02):
+        out["$schema"] = rng.choice(gs.SCHEMA_URIS)
+        SCHEMA_URIS_ADDED[0] += 1
     if rng.random() < 0.08:
         # keywords the library does not know (Draft 6 lets a schema carry any other member): names that mean
         # something to Python or to the library's own constructors
@@ -350,6 +353,7 @@ def hostilify(rng, schema, depth=0):
 
 
 UNKNOWN_KEYWORDS = [0]
+SCHEMA_URIS_ADDED = [0]
 
 
 def json_safe(value):
@@ -386,6 +390,8 @@ def parser_and_calls(ctx, sut):
         ctx.count("parse.hostile_schemas")
         ctx.count("parse.unknown_keywords_added", UNKNOWN_KEYWORDS[0])
         UNKNOWN_KEYWORDS[0] = 0
+        ctx.count("parse.names_a_meta_schema", SCHEMA_URIS_ADDED[0])
+        SCHEMA_URIS_ADDED[0] = 0
         ctx.evaluation()
         try:
             element = sut.parse_direct(schema)
